@@ -83,8 +83,8 @@ pub open spec fn same_flow(a: Seq<AsmLine>, b: Seq<AsmLine>) -> bool { forall|n:
 pub proof fn lemma_repair_single(old_seg: Seq<AsmLine>, new_seg: Seq<AsmLine>, m: AsmMnemonic, l: Seq<char>, f: Seq<char>)
     requires
         is_cb(m), l != f,
-        old_seg.len() == 1 && is_br(old_seg[0], m, l), //@ C03:repair-shape-old1
-        new_seg.len() == 3 && is_br(new_seg[0], inverse(m), f) && is_br(new_seg[1], AsmMnemonic::JMP, l) && is_lab(new_seg[2], f), //@ C03:repair-shape-new1
+        old_seg.len() == 1 && is_br(old_seg[0], m, l), //@ C03,C01,C15:repair-shape-old1
+        new_seg.len() == 3 && is_br(new_seg[0], inverse(m), f) && is_br(new_seg[1], AsmMnemonic::JMP, l) && is_lab(new_seg[2], f), //@ C03,C01,C15:repair-shape-new1
     ensures same_flow(new_seg, old_seg),
 {
     reveal_with_fuel(run, 6); reveal_with_fuel(find_lab, 5);
@@ -98,9 +98,9 @@ pub proof fn lemma_repair_single(old_seg: Seq<AsmLine>, new_seg: Seq<AsmLine>, m
 pub proof fn lemma_repair_pair(old_seg: Seq<AsmLine>, new_seg: Seq<AsmLine>, m: AsmMnemonic, l: Seq<char>, f: Seq<char>, u: Seq<char>)
     requires
         m == AsmMnemonic::BMI || m == AsmMnemonic::BCC, l != f, l != u, f != u,
-        old_seg.len() == 2 && is_br(old_seg[0], m, l) && is_br(old_seg[1], AsmMnemonic::BEQ, l), //@ C03:repair-shape-old2
+        old_seg.len() == 2 && is_br(old_seg[0], m, l) && is_br(old_seg[1], AsmMnemonic::BEQ, l), //@ C03,C01,C15:repair-shape-old2
         new_seg.len() == 5 && is_br(new_seg[0], AsmMnemonic::BEQ, u) && is_br(new_seg[1], inverse(m), f) && is_lab(new_seg[2], u)
-            && is_br(new_seg[3], AsmMnemonic::JMP, l) && is_lab(new_seg[4], f), //@ C03:repair-shape-new2
+            && is_br(new_seg[3], AsmMnemonic::JMP, l) && is_lab(new_seg[4], f), //@ C03,C01,C15:repair-shape-new2
     ensures same_flow(new_seg, old_seg),
 {
     reveal_with_fuel(run, 8); reveal_with_fuel(find_lab, 7);
@@ -223,7 +223,7 @@ def build(repo):
     # loop 1: while restart
     cb.loop_spec(1, r"^while restart$", """
             invariant !restart ==> all_in_range(self.code@, self.code@.len() as int), //@ C03:range-outer
-                targets_defined(self.code@), //@ C03,C13:repair-keeps-targets-defined
+                targets_defined(self.code@), //@ C03,C13,C01,C15:repair-keeps-targets-defined
 """)
     cb.after(r"while restart\s+invariant[^{]*\{", """
             assume(cb_bounded(self.code@, nb_fixes)); // A-cb-bounded
@@ -240,7 +240,7 @@ def build(repo):
                 ensures
                     self.code@ == code0, cb_bounded(code0, nb_fixes),
                     !repair ==> !restart && all_in_range(code0, code0.len() as int), //@ C03:range-scan-exit
-                    repair ==> restart && position < code0.len() && is_cbl(code0[position as int]), //@ C03:repair-at-branch
+                    repair ==> restart && position < code0.len() && is_cbl(code0[position as int]), //@ C03,C01,C15:repair-at-branch
 """)
     cb.after(r"let j = i\.next\(\);", "proof { if j is Some { assert(*j->Some_0 == code0[position as int]); } }")
     # loop 3: nearest-label search
@@ -298,22 +298,22 @@ def build(repo):
                     fix_labels_differ(nb_fixes);
                     reveal_with_fuel(run, 8);
                     reveal_with_fuel(find_lab, 6);
-                    assert(self.code@.subrange(0, position as int) =~= old_code.subrange(0, position as int)); //@ C03:repair-frame-head
-                    assert(tail@ =~= old_code.subrange(position + remove, old_len)); //@ C03:repair-frame-tail
-                    assert(only_flow(new_seg)); //@ C03:repair-only-branches
+                    assert(self.code@.subrange(0, position as int) =~= old_code.subrange(0, position as int)); //@ C03,C01,C15:repair-frame-head
+                    assert(tail@ =~= old_code.subrange(position + remove, old_len)); //@ C03,C01,C15:repair-frame-tail
+                    assert(only_flow(new_seg)); //@ C03,C01,C15:repair-only-branches
                     assert(flow_sizes_ok(new_seg)); //@ C04,C03:lit-cb-sizes
-                    assert(only_flow(old_seg)); //@ C03:repair-removes-only-branches
+                    assert(only_flow(old_seg)); //@ C03,C01,C15:repair-removes-only-branches
                     %(tgt_hint)s
                     %(lab2_hint)s
                     // every flag combination takes the same exit (A-fixfresh as hypothesis)
                     if opnd(old_code[position as int]) != fix_label(nb_fixes) && opnd(old_code[position as int]) != fixup_label(nb_fixes) {
                         if remove == 1 {
-                            lemma_repair_single(old_seg, new_seg, mnem(old_code[position as int]), opnd(old_code[position as int]), fix_label(nb_fixes)); //@ C03:repair-equiv-single
+                            lemma_repair_single(old_seg, new_seg, mnem(old_code[position as int]), opnd(old_code[position as int]), fix_label(nb_fixes)); //@ C03,C01,C15:repair-equiv-single
                         } else {
-                            lemma_repair_pair(old_seg, new_seg, mnem(old_code[position as int]), opnd(old_code[position as int]), fix_label(nb_fixes), fixup_label(nb_fixes)); //@ C03:repair-equiv-pair
+                            lemma_repair_pair(old_seg, new_seg, mnem(old_code[position as int]), opnd(old_code[position as int]), fix_label(nb_fixes), fixup_label(nb_fixes)); //@ C03,C01,C15:repair-equiv-pair
                         }
                     }
-                    assert((opnd(old_code[position as int]) != fix_label(nb_fixes) && opnd(old_code[position as int]) != fixup_label(nb_fixes)) ==> same_flow(new_seg, old_seg)); //@ C03:repair-equiv
+                    assert((opnd(old_code[position as int]) != fix_label(nb_fixes) && opnd(old_code[position as int]) != fixup_label(nb_fixes)) ==> same_flow(new_seg, old_seg)); //@ C03,C01,C15:repair-equiv
                     // the fresh label is defined exactly where the inverted branch expects it: last line of the segment
                     assert(is_lab(new_seg[new_seg.len() - 1], fix_label(nb_fixes))); //@ C03,C13:labels-fix-defined
                     assert(find_lab(new_seg, 0, fix_label(nb_fixes)) == new_seg.len() - 1); //@ C03,C13:labels-fix-once
